@@ -104,6 +104,16 @@ class NumStr:
     def __eq__(self, o):
         return isinstance(o, NumStr) and self.n == o.n
 
+    def __len__(self):
+        # number of decimal digits of the canonical text (text is text: code may ask for its length)
+        d, bound = 1, 10
+        while d < 40:
+            if self.n < bound:
+                return d
+            d += 1
+            bound *= 10
+        return 40                         # 10**39 and beyond: "at least 40 digits" is all the model says
+
     __hash__ = None
 
 
